@@ -521,6 +521,14 @@ C03_HoldUntilDue(S) ==
     \A t \in 1..NT(S) : S.ts[t].st = RUNNING => WorkerOf(S, t) # 0 /\ S.ts[t].last + S.ts[t].rem >= S.now
 C03_CompletedTiming(S) ==
     \A t \in 1..NT(S) : S.ts[t].st = COMPLETED => S.ts[t].fin >= S.ts[t].start /\ WorkerOf(S, t) = 0
+\* C03: completion exactly at start + the chosen strategy's runtime (stretched by at most the variance)
+C03_ExactCompletion(W, S) ==
+    \A t \in 1..NT(S) : S.ts[t].st = COMPLETED =>
+        LET r == S.ts[t].plan.sd.rt  d == S.ts[t].fin - S.ts[t].start IN
+        IF W.fl.variance = 0 THEN d = r
+        ELSE 100 * d >= 100 * r - 50 /\ 100 * d <= 100 * r + r * W.fl.variance + 50
+\* C03: a task never starts earlier than the time its scheduler chose
+C03_NotBeforePlan(S) == \A t \in 1..NT(S) : S.ts[t].st \in {RUNNING, COMPLETED} => S.ts[t].start >= S.ts[t].plan.tm
 \* C06: nothing downstream of a cancelled task can still run (evaluated when no TASK_CANCEL is pending now)
 Starved(S, t) ==
     Parents(S, t) # <<>> /\
